@@ -23,7 +23,10 @@ Record robs := {
   ro_retained : list (option (list Z));
   ro_adjusted : Z;
   ro_freeze : bool;
-  ro_pt_trace : list (Z * Z);            (* (number of writes done, new part target) at each change *)
+  ro_calls : list (Z * Z);               (* run-length (calls, access units per call): the harness
+                                            observes the muxer after each Write* call only *)
+  ro_pt_trace : list (Z * Z);            (* (number of writes done, new part target) at each change
+                                            seen at a call boundary *)
   ro_errors : Z;
   ro_views : list pview }.
 
@@ -88,6 +91,23 @@ Fixpoint scan (c : cfg) (s : mstate) (ws : list write) : option (list mstate) :=
       end
   end.
 
+Definition call_sizes (l : list (Z * Z)) : list nat :=
+  flat_map (fun x => repeat (Z.to_nat (snd x)) (Z.to_nat (fst x))) l.
+
+(* part target changes seen at the call boundaries: a call of n access units is n writes *)
+Fixpoint pt_changes_calls (k prev : Z) (sizes : list nat) (l : list mstate) : list (Z * Z) :=
+  match sizes with
+  | [] => []
+  | n :: r =>
+      match skipn (n - 1) l with
+      | s :: l' =>
+          let k' := k + Z.of_nat n in
+          if partTarget s =? prev then pt_changes_calls k' prev r l'
+          else (k', partTarget s) :: pt_changes_calls k' (partTarget s) r l'
+      | [] => []
+      end
+  end.
+
 Fixpoint pt_changes (k : Z) (prev : Z) (l : list mstate) : list (Z * Z) :=
   match l with
   | [] => []
@@ -138,7 +158,7 @@ Definition check_case (cs : pcase) : list nat :=
           (if list_eqb2 (list_eqb2 part_eqb) (published s) (ro_published o) then [] else [2%nat]) ++
           (if list_eqb2 part_eqb (nextParts s) (ro_next o) then [] else [3%nat]) ++
           (if (adjusted s =? ro_adjusted o) && Bool.eqb (freeze s) (ro_freeze o) then [] else [4%nat]) ++
-          (if list_eqb (fun a b => (fst a =? fst b) && (snd a =? snd b)) (pt_changes 1 0 states) (ro_pt_trace o)
+          (if list_eqb (fun a b => (fst a =? fst b) && (snd a =? snd b)) (pt_changes_calls 0 0 (call_sizes (ro_calls o)) states) (ro_pt_trace o)
            then [] else [5%nat]) ++
           (if encodeErrors s =? ro_errors o then [] else [6%nat]) ++
           (if list_eqb2 seg_durs_eqb (segments s) (ro_retained o) then [] else [7%nat]) ++
